@@ -34,7 +34,8 @@ META = {
                    "dependence of each member booking on the team gate, one-time selection guard, single effort credit per "
                    "slot, post-dominance of the completion test, and an effect analysis of what the booking loop writes "
                    "versus what the gate reads."
-                   " Also: per-member limit test inside the gate, order table of the stop condition (tolerance bounded by half a second), absence of rounding calls on the credited value path, release of the final slot in both directions and for every team member, single alternative candidate, and a team-wide bound on the amount booked per member (known finding F43).",
+                   " Also: per-member limit test inside the gate, order table of the stop condition (tolerance bounded by half a second), absence of rounding calls on the credited value path, release of the final slot in both directions and for every team member, single alternative candidate, and a team-wide bound on the amount booked per member (known finding F43)."
+                   " Round 3: the booked and credited amount derives from the ledger on every path and arm; process-state rule under Project.schedule.",
     "assumptions": [],
 }
 
